@@ -1131,7 +1131,7 @@ impl Property for RegProp {
         Isolation::Child
     }
     fn cases(&self, tier: Tier) -> u32 {
-        tier.pick(12_000, 300_000)
+        tier.pick(30_000, 400_000)
     }
     fn strategy(&self, tier: Tier) -> BoxedStrategy<Case> {
         let t = || 0u8..NT as u8;
